@@ -17,6 +17,21 @@ RANK_TYPES = ('spearman', 'rho-a', 'kendall', 'tau-b', 'tau-a')
 WHITENED = ('cosine_cov', 'corr_cov')
 
 
+class Degenerate(Exception):
+    """the reference value is undefined (0/0) - the case is outside the domain"""
+
+
+def check_pooled(pred, method):
+    """a pooled vector that vanishes (after centring for correlation / rank types) has no
+    defined similarity; in floating point its direction would be rounding noise"""
+    pred = np.asarray(pred, float)
+    if not np.all(np.isfinite(pred)):
+        raise Degenerate('pooled vector not finite')
+    c = pred if method in COS_TYPES else pred - pred.mean()
+    if math.sqrt(float(c @ c)) < 1e-7 * max(1.0, float(np.max(np.abs(pred)))):
+        raise Degenerate('pooled vector vanishes')
+
+
 def unit(x):
     x = np.asarray(x, float)
     nrm = math.sqrt(float(x @ x))
@@ -68,9 +83,12 @@ def pool_whitened(vecs, method, v):
 
 def similarity(method, a, b, v=None):
     """similarity of two complete vectors; v = dense V (already restricted)"""
-    if method in WHITENED:
-        return ref.s_whitened(a, b, v, center=(method == 'corr_cov'))
-    return ref.sim(method, a, b)
+    try:
+        if method in WHITENED:
+            return ref.s_whitened(a, b, v, center=(method == 'corr_cov'))
+        return ref.sim(method, a, b)
+    except ZeroDivisionError:
+        raise Degenerate('similarity undefined')
 
 
 def groups_of(labels):
@@ -94,6 +112,7 @@ def ceilings(vecs, groups, method, n=None, keep=None, pool_fn=None, sigma_k=None
     groups : list of lists of row indices
     lower  : mean over groups g of mean_{i in g} sim(pool(rows not in g), x_i)
     upper  : mean over groups g of mean_{i in g} sim(pool(all rows), x_i)
+    raises Degenerate when a pooled vector vanishes or a similarity is 0/0
     """
     vecs = np.atleast_2d(np.asarray(vecs, float))
     if keep is None:
@@ -105,15 +124,20 @@ def ceilings(vecs, groups, method, n=None, keep=None, pool_fn=None, sigma_k=None
         v = dense_v_kept(n or ref.n_from_len(vecs.shape[1]), keep, sigma_k)
     pool_fn = pool_fn or pool
     every = pool_fn(x, method)
+    check_pooled(every, method)
     lows, ups = [], []
     for g in groups:
         rest = [i for i in range(len(x)) if i not in g]
         pred = pool_fn(x[rest], method)
+        check_pooled(pred, method)
         lo = [similarity(method, pred, x[i], v) for i in g]
         up = [similarity(method, every, x[i], v) for i in g]
         lows.append(sum(lo) / len(lo))
         ups.append(sum(up) / len(up))
-    return sum(lows) / len(lows), sum(ups) / len(ups)
+    lo, up = sum(lows) / len(lows), sum(ups) / len(ups)
+    if not (math.isfinite(lo) and math.isfinite(up)):
+        raise Degenerate('similarity undefined')
+    return lo, up
 
 
 def analytic_upper(vecs, method):
